@@ -175,6 +175,12 @@ func main() {
 			i++
 			transMapTrace(2000000+i, *seed*1000003+int64(i), t, enc)
 		}
+	case "path":
+		enc, done := openOut(*out)
+		defer done()
+		for i := 0; i < *n; i++ {
+			pathCase(i+1, *seed*1000003+int64(i), enc)
+		}
 	case "store":
 		enc, done := openOut(*out)
 		defer done()
